@@ -106,6 +106,10 @@ fn main() {
         c19::child_main();
         return;
     }
+    if args[1] == "c18-ffi-child" {
+        c18::ffi_child_main(&args);
+        return;
+    }
     if args[1] == "c09-child" {
         c09::child_main(&args);
         return;
